@@ -14,12 +14,13 @@ use std::collections::{BTreeSet, HashMap};
 pub static INFO: PropInfo = PropInfo {
     id: "C15",
     level: "exploration",
-    rule: "one evaluation = one simulated lossy session (as C01) with tick lengths shorter than / equal to / 2.5x / irregular relative to resend_time (0, 10, 100, 300 ms), budgets from 1200 B/tick up, ack delays from 0 to > 3 s. The monitor decodes every packet of every get_packets_to_send call with the crate's decoder and keeps a shadow table item -> (last transmission time, acknowledged?) and packet sequence -> (items carried, sent at); acknowledgements are taken from the Ack packets the harness actually delivered to the sender. Refuted by: (a) two transmissions of one (channel, message id[, slice]) closer than resend_time; (b) an item that was sent before, is still unacknowledged by any delivered ack is due (now - last_sent >= resend_time) and absent from a call although the budget left after the whole call is >= its size (message length, or 1200 for a slice); (c) a transmission of an item after an Ack naming a packet that carried it, sent < 3 s before, was processed. Non-trivial = at least one retransmission and one ack-after-loss occurred; distinct = distinct event-log fingerprints.",
+    rule: "one evaluation = one simulated lossy session (as C01) with tick lengths shorter than / equal to / 2.5x / irregular relative to resend_time (0, 10, 100, 300 ms), budgets from 1200 B/tick up, ack delays from 0 to > 3 s. The monitor decodes every packet of every get_packets_to_send call with the crate's decoder and keeps a shadow table item -> (last transmission time, acknowledged?) and packet sequence -> (items carried, sent at); acknowledgements are taken from the Ack packets the harness actually delivered to the sender. Refuted by: (a) two transmissions of one (channel, message id[, slice]) closer than resend_time; (b) an item that was sent before, is still unacknowledged by any delivered ack is due (now - last_sent >= resend_time) and absent from a call although the budget left after the whole call is >= its size (message length, or 1200 for a slice); (c) a transmission of an item after an Ack naming a packet that carried it, sent < 3 s before, was processed. One run in 20 is a SUB-MILLISECOND run: one endpoint, a small and a sliced reliable message, no acknowledgements, ticks of 16.666 / 6.944 / 33.333 / 10.001 / 0.999 ms or irregular ones with nanosecond fractions, resend times down to 20 ms and fractional ones; every transmission is timed with the exact sum of the durations handed to update: never earlier than resend_time after the item's previous transmission, always at the first call at which resend_time has elapsed. Non-trivial = at least one retransmission and one ack-after-loss occurred; distinct = distinct event-log fingerprints.",
     assumptions: &[
         "virtual time: all endpoints are advanced by the same dt at the start of a tick, so the sender's clock equals the simulator clock",
         "promptness is asserted only against the budget left after the whole call (weakest necessary condition)",
     ],
     gates: &[
+        ("sub_millisecond_runs", 20),
         ("retransmissions_timed", 5000),
         ("items_acked_effective", 2000),
         ("promptness_checked", 5000),
@@ -286,8 +287,84 @@ impl Monitor for ResendOracle {
     }
 }
 
+/// Frame times are not whole milliseconds (60 Hz is 16.666 ms; irregular frames have any length): one endpoint, one
+/// small and one sliced reliable message, no acknowledgements, ticks of a fractional length. Every transmission of an
+/// item is timed with the exact sum of the durations handed to `update`: a retransmission comes no earlier than
+/// resend_time after the previous transmission of that item, and at the first call at which resend_time has elapsed.
+fn sub_millisecond_run(ctx: &Ctx, out: &mut Outcome, run_seed: u64, r: &mut Rng) {
+    use bytes::Bytes;
+    use renet::verif::Packet;
+    use renet::{ChannelConfig, ConnectionConfig, RenetClient, SendType};
+    use std::collections::HashMap;
+    use std::time::Duration;
+    let resend = Duration::from_micros(*r.pick(&[300_000u64, 20_000, 100_000, 33_333, 50_500]));
+    let regular = r.chance(1, 2);
+    let base_us = *r.pick(&[16_666u64, 6_944, 33_333, 10_001, 999]);
+    let ordered = r.chance(1, 2);
+    let st = if ordered { SendType::ReliableOrdered { resend_time: resend } } else { SendType::ReliableUnordered { resend_time: resend } };
+    let chans = vec![ChannelConfig { channel_id: 1, max_memory_usage_bytes: 1 << 20, send_type: st }];
+    let mut c = RenetClient::new(ConnectionConfig { available_bytes_per_tick: 1 << 20, server_channels_config: chans.clone(), client_channels_config: chans });
+    c.set_connected();
+    c.send_message(1, Bytes::from(vec![1u8; r.urange(1, 300)]));
+    c.send_message(1, Bytes::from(vec![2u8; 1200 * r.urange(1, 3) + r.urange(1, 1199)]));
+    let mut now = Duration::ZERO;
+    // item -> time of its last transmission; item = (message id, slice index or usize::MAX for a small message)
+    let mut last: HashMap<(u64, usize), Duration> = HashMap::new();
+    let span = resend * 4 + Duration::from_millis(50);
+    let mut checked = 0u64;
+    while now < span {
+        let mut sent_now: Vec<(u64, usize)> = Vec::new();
+        for p in c.get_packets_to_send() {
+            match crate::rsim::decode(&p) {
+                Some(Packet::SmallReliable { messages, .. }) => sent_now.extend(messages.iter().map(|(id, _)| (*id, usize::MAX))),
+                Some(Packet::ReliableSlice { slice, .. }) => sent_now.push((slice.message_id, slice.slice_index)),
+                _ => {}
+            }
+        }
+        for item in sent_now.iter() {
+            if let Some(prev) = last.get(item) {
+                checked += 1;
+                if now - *prev < resend {
+                    out.violation(
+                        ctx,
+                        "C15/retransmitted-too-early/sub-millisecond",
+                        "a retransmission comes no earlier than resend_time after the previous transmission",
+                        format!("item {:?} transmitted again after {:?}, earlier than resend_time {:?} (tick base {} us, {})", item, now - *prev, resend, base_us, if regular { "regular" } else { "irregular" }),
+                        json!({"property": "C15", "engine": ctx.engine, "run_seed": format!("{:#x}", run_seed), "mode": "sub-millisecond"}),
+                    );
+                    return;
+                }
+            }
+            last.insert(*item, now);
+        }
+        // promptness: whatever was due at this call (resend_time elapsed since its last transmission) went out
+        for (item, prev) in last.iter() {
+            if now - *prev >= resend && !sent_now.contains(item) {
+                out.violation(
+                    ctx,
+                    "C15/due-item-not-retransmitted/sub-millisecond",
+                    "an unacknowledged item is retransmitted at the first flush at which resend_time has elapsed",
+                    format!("item {:?} was last transmitted {:?} ago (resend_time {:?}) and was not in this call's packets", item, now - *prev, resend),
+                    json!({"property": "C15", "engine": ctx.engine, "run_seed": format!("{:#x}", run_seed), "mode": "sub-millisecond"}),
+                );
+                return;
+            }
+        }
+        let dt = Duration::from_micros(if regular { base_us } else { r.range(1, 2 * base_us) }) + Duration::from_nanos(if regular { 0 } else { r.below(1000) });
+        c.update(dt);
+        now += dt;
+    }
+    out.count("sub_millisecond_runs");
+    out.add("sub_millisecond_retransmissions_timed", checked);
+    out.eval(crate::rng::mix(&[0x5B15, run_seed, base_us]), checked > 0);
+}
+
 pub fn one_run(ctx: &Ctx, out: &mut Outcome, run_seed: u64) {
     let mut r = Rng::new(run_seed);
+    if ctx.replay_mode.as_deref() == Some("sub-millisecond") || (ctx.replay_mode.is_none() && (run_seed >> 6) % 20 == 0) {
+        let mut r2 = Rng::new(run_seed ^ 0x5B15);
+        return sub_millisecond_run(ctx, out, run_seed, &mut r2);
+    }
     let gen = CfgGen {
         max_clients: 2,
         small_budgets: r.chance(1, 3),
